@@ -436,6 +436,12 @@ class ExprMixin:
                 if B is not sv.SPay:
                     self.safe(path, "div0", y != 0, node)
                 return sv.SPay(self.rdiv(path, x, y), self.units_div(ua, ub))
+        if A is sv.SStr and B is sv.SStr and o is ast.Add:
+            if a.py is not None and b.py is not None:
+                return self.const(a.py + b.py, node)
+            return sv.SStr(z3.Function("str.concat", sv.StrS, sv.StrS, sv.StrS)(a.e, b.e))
+        if A is sv.SStr and B is sv.SInt and o is ast.Mult:
+            return sv.SStr(z3.Const(sv.uid("strrep"), sv.StrS))
         r = self.lib_binop(op, a, b, path, node)
         if r is not None:
             return r
